@@ -107,6 +107,7 @@ struct QueueEngine : Engine
 			p.cfg[q + "bw"] = bw; p.cfg[q + "lat"] = lat; p.cfg[q + "cap"] = cap;
 			bws.push_back(bw); lats.push_back(lat);
 		}
+		p.cfg["aux_timers"] = rng.chance(0.25) ? 1 : 0;
 		// arrival process; predicted departures of hop 0 are used to place
 		// arrivals exactly on a departure instant now and then
 		int const nops = int(rng.range(1, tier ? 60 : 40));
@@ -217,6 +218,11 @@ struct QueueEngine : Engine
 			sim::route base = net.core_chain.as_route();
 			base.append(term);
 			asio::high_resolution_timer timer(ios);
+			// application timers next to the hops' own timers in the simulation's one timer queue: one is armed for the
+			// instant at which an idle first hop forwards what has just arrived and is taken out again at the next injection,
+			// the other is an armed timer that gets an armed timer with a later expiry move-assigned
+			bool const aux = plan.c("aux_timers") != 0 && qp[0].lat_ns > 0;
+			asio::high_resolution_timer aux1(ios), aux2(ios);
 			size_t next = 0;
 			std::function<void()> inject_due = [&]() {
 				int64_t const now = now_ns();
@@ -239,6 +245,14 @@ struct QueueEngine : Engine
 						};
 					++ctx.handlers;
 					sim::forward_packet(std::move(p));
+				}
+				if (aux)
+				{
+					aux1.expires_after(duration(qp[0].lat_ns));
+					aux1.async_wait([](boost::system::error_code const&) {});
+					aux2 = asio::high_resolution_timer(ios, duration(qp[0].lat_ns * 3 + 1000));
+					aux2.async_wait([](boost::system::error_code const&) {});
+					ctx.hit("aux_timers_rearmed");
 				}
 				if (next < arr.size())
 				{
